@@ -18,7 +18,13 @@ use vouched_time::AtomicBaseTime;
 const VOUCH: raffle::VouchingParameters = raffle::VouchingParameters::parse_or_die("VOUCH-773ec2a0e62c20cd-f9e079b78e895091-fc1da7b1b77c57cb-594b9cce3091464a");
 const CHECK: raffle::CheckingParameters = raffle::CheckingParameters::parse_or_die("CHECK-fc1da7b1b77c57cb-594b9cce3091464a");
 
+/// Added to every base time of the running scenario (0, or a value that puts all of them in the last
+/// two million milliseconds of the u64 range: times far beyond year 9999).
+static OFFSET: std::sync::atomic::AtomicU64 = std::sync::atomic::AtomicU64::new(0);
+const HIGH_OFFSET: u64 = u64::MAX - 2_000_000;
+
 fn pair(t: u64) -> (u64, raffle::Voucher) {
+    let t = t + OFFSET.load(std::sync::atomic::Ordering::Relaxed);
     (t, VOUCH.vouch(t))
 }
 
@@ -64,14 +70,21 @@ struct Scenario {
     completed_writer: bool,
     /// frozen writers: (operation, steps before freezing)
     frozen: Vec<(WriterOp, usize)>,
+    /// all base times of the scenario lie at the top of the u64 range
+    high: bool,
+    /// before its operation the observer thread reads ANOTHER AtomicBaseTime (its own, holding a much
+    /// later base time): what a thread saw in one instance must not make it wait on another
+    warm: bool,
 }
 
 impl Scenario {
     fn render(&self) -> String {
         format!(
-            "start_seq={} poisoned={} observer={:?} observer_pause={} completed_writer={} frozen={}",
+            "start_seq={} poisoned={} high={} warm={} observer={:?} observer_pause={} completed_writer={} frozen={}",
             self.start_seq,
             self.poisoned,
+            self.high,
+            self.warm,
             self.observer,
             self.observer_pause,
             self.completed_writer,
@@ -95,6 +108,8 @@ impl Scenario {
         Some(Scenario {
             start_seq: get("start_seq")?.parse().ok()?,
             poisoned: get("poisoned")? == "true",
+            high: get("high") == Some("true"),
+            warm: get("warm") == Some("true"),
             observer: OBSERVER_OPS.iter().chain(LONG_OBSERVER_OPS.iter()).copied().find(|o| format!("{:?}", o) == get("observer").unwrap_or(""))?,
             observer_pause: get("observer_pause")?.parse().ok()?,
             completed_writer: get("completed_writer")? == "true",
@@ -117,6 +132,7 @@ struct Outcome {
 
 /// Runs one scenario.  Err = violation description.
 fn run_scenario(sc: &Scenario) -> Result<Outcome, String> {
+    OFFSET.store(if sc.high { HIGH_OFFSET } else { 0 }, std::sync::atomic::Ordering::Relaxed);
     let abt = Arc::new(AtomicBaseTime::new());
     // --- start state (no controller installed yet: these run freely)
     // one or two accepted updates first, so that either slot can be the stable one and so that
@@ -129,7 +145,7 @@ fn run_scenario(sc: &Scenario) -> Result<Outcome, String> {
     if sc.poisoned {
         let a = abt.clone();
         // a voucher that does not match: the crate's own assertion panics while the lock is held
-        let bad = (current + 1, VOUCH.vouch(current + 2));
+        let bad = (pair(current + 1).0, pair(current + 2).1);
         let r = std::thread::spawn(move || a.update(bad)).join();
         if r.is_ok() {
             return Err("update with a mismatched voucher did not panic".into());
@@ -143,10 +159,8 @@ fn run_scenario(sc: &Scenario) -> Result<Outcome, String> {
     let result = match result {
         Ok((outcome, handles, expect_final)) => {
             let mut err = None;
-            for h in handles {
-                if h.join().is_err() {
-                    err.get_or_insert("a thread panicked".to_string());
-                }
+            if join_or_abandon(handles) {
+                err.get_or_insert("a thread panicked".to_string());
             }
             Controller::uninstall();
             // (What the released writers then do to the value is C13's business, not C18's: the
@@ -158,9 +172,7 @@ fn run_scenario(sc: &Scenario) -> Result<Outcome, String> {
             }
         }
         Err((e, handles)) => {
-            for h in handles {
-                let _ = h.join();
-            }
+            let _ = join_or_abandon(handles);
             Controller::uninstall();
             Err(e)
         }
@@ -168,11 +180,43 @@ fn run_scenario(sc: &Scenario) -> Result<Outcome, String> {
     result
 }
 
+/// Joins the threads that finish within two seconds of the teardown; a thread that is still running
+/// then (an observer that spins or blocks for good is exactly what a violation looks like) is left
+/// behind: it belongs to no later scenario's controller and ends with the process.
+fn join_or_abandon(handles: Handles) -> bool {
+    let deadline = std::time::Instant::now() + std::time::Duration::from_secs(2);
+    let mut spins = 0u32;
+    while !handles.iter().all(|h| h.is_finished()) && std::time::Instant::now() < deadline {
+        spins += 1;
+        if spins < 200 {
+            std::thread::yield_now();
+        } else {
+            std::thread::sleep(std::time::Duration::from_micros(200));
+        }
+    }
+    let mut panicked = false;
+    for h in handles {
+        if h.is_finished() {
+            panicked |= h.join().is_err();
+        } else {
+            std::mem::forget(h);
+        }
+    }
+    panicked
+}
+
 type Handles = Vec<std::thread::JoinHandle<()>>;
 
 fn spawn_role(ctl: &Arc<Controller>, role: usize, f: impl FnOnce() + Send + 'static) -> std::thread::JoinHandle<()> {
+    spawn_role_after(ctl, role, || {}, f)
+}
+
+/// `prelude` runs on the new thread BEFORE it is registered with the controller (its stand-in
+/// operations are not step points and are not recorded).
+fn spawn_role_after(ctl: &Arc<Controller>, role: usize, prelude: impl FnOnce() + Send + 'static, f: impl FnOnce() + Send + 'static) -> std::thread::JoinHandle<()> {
     let ctl = ctl.clone();
     std::thread::spawn(move || {
+        prelude();
         ctl.register(role);
         let r = std::panic::catch_unwind(std::panic::AssertUnwindSafe(f));
         ctl.finish(role);
@@ -194,7 +238,18 @@ fn run_controlled(sc: &Scenario, abt: &Arc<AtomicBaseTime>, ctl: &Arc<Controller
         let abt = abt.clone();
         let res = observer_result.clone();
         let op = sc.observer;
-        handles.push(spawn_role(ctl, ROLE_OBSERVER, move || {
+        let warm = sc.warm;
+        let prelude = move || {
+            if warm {
+                // the thread's own, unrelated cell, far ahead of everything in the scenario
+                let other = AtomicBaseTime::new();
+                other.update(pair(1_500_000));
+                let _ = other.snapshot();
+                other.update(pair(1_600_000));
+                let _ = other.snapshot();
+            }
+        };
+        handles.push(spawn_role_after(ctl, ROLE_OBSERVER, prelude, move || {
             let mut out = Vec::new();
             match op {
                 ObserverOp::Snapshot => {
@@ -423,11 +478,11 @@ fn scenarios(tier: Tier) -> Vec<Scenario> {
                         // one frozen writer at every step
                         for w in WRITER_OPS {
                             for k in 0..=max_k {
-                                v.push(Scenario { start_seq, poisoned, observer, observer_pause, completed_writer, frozen: vec![(w, k)] });
+                                v.push(Scenario { start_seq, poisoned, observer, observer_pause, completed_writer, frozen: vec![(w, k)], high: false, warm: false });
                             }
                         }
                         // no frozen writer at all (the observer paused, a writer completed)
-                        v.push(Scenario { start_seq, poisoned, observer, observer_pause, completed_writer, frozen: vec![] });
+                        v.push(Scenario { start_seq, poisoned, observer, observer_pause, completed_writer, frozen: vec![], high: false, warm: false });
                     }
                 }
                 // two frozen writers (observer not paused, no completed writer)
@@ -436,7 +491,7 @@ fn scenarios(tier: Tier) -> Vec<Scenario> {
                     for k1 in 0..=two_max {
                         for w2 in WRITER_OPS {
                             for k2 in 0..=two_max {
-                                v.push(Scenario { start_seq, poisoned, observer, observer_pause: 0, completed_writer: false, frozen: vec![(w1, k1), (w2, k2)] });
+                                v.push(Scenario { start_seq, poisoned, observer, observer_pause: 0, completed_writer: false, frozen: vec![(w1, k1), (w2, k2)], high: false, warm: false });
                             }
                         }
                     }
@@ -450,7 +505,22 @@ fn scenarios(tier: Tier) -> Vec<Scenario> {
             for observer in LONG_OBSERVER_OPS {
                 for w in WRITER_OPS {
                     for k in 0..=max_k {
-                        v.push(Scenario { start_seq, poisoned, observer, observer_pause: 0, completed_writer: false, frozen: vec![(w, k)] });
+                        v.push(Scenario { start_seq, poisoned, observer, observer_pause: 0, completed_writer: false, frozen: vec![(w, k)], high: false, warm: false });
+                    }
+                }
+            }
+        }
+    }
+    // base times at the top of the u64 range, and an observer thread that has just read another,
+    // more advanced instance: one suspended writer at every step, no pause
+    for (high, warm) in [(true, false), (false, true), (true, true)] {
+        for start_seq in [1u8, 2] {
+            for observer in OBSERVER_OPS {
+                for completed_writer in [false, true] {
+                    for w in WRITER_OPS {
+                        for k in 0..=max_k {
+                            v.push(Scenario { start_seq, poisoned: false, observer, observer_pause: 0, completed_writer, frozen: vec![(w, k)], high, warm });
+                        }
                     }
                 }
             }
@@ -548,9 +618,7 @@ fn nfs_scenario(k: usize, observer_is_observe: bool, second: bool, warm: bool, d
         Ok(events)
     })();
     ctl.release_all();
-    for h in handles {
-        let _ = h.join();
-    }
+    let _ = join_or_abandon(handles);
     Controller::uninstall();
     result
 }
@@ -615,12 +683,11 @@ fn nfs_scan_scenario(k: usize, dir: &std::path::Path) -> Result<Vec<Op>, String>
         Ok(events)
     })();
     ctl.release_all();
-    for h in handles {
-        let _ = h.join();
-    }
+    let mut handles = handles;
     if let Some(q) = queued {
-        let _ = q.join();
+        handles.push(q);
     }
+    let _ = join_or_abandon(handles);
     Controller::uninstall();
     result
 }
